@@ -103,8 +103,12 @@ fn is_machine_overflow(msg: &str) -> bool {
 }
 
 fn ss(d: &Diagram, c: C, reduced: bool) -> Result<i32, String> {
+    ss_link(&to_link(d), c, reduced)
+}
+
+fn ss_link(l: &yui_link::Link, c: C, reduced: bool) -> Result<i32, String> {
     use num_bigint::BigInt;
-    let l = to_link(d);
+    let l = l.clone();
     let first = catch(|| match c {
         C::Z2 => ss_invariant::<i64>(&l, &2, reduced),
         C::Z3 => ss_invariant::<i64>(&l, &3, reduced),
@@ -147,6 +151,20 @@ fn check_ss(run: &Run, name: &str, d: &Diagram, cs: &[C], moves: &[(String, Diag
             Ok(m) if m == -s0 => {}
             Ok(m) => run.fail(&format!("{key}:mirror"), &format!("ss(mirror) = {m}, expected {}", -s0), json!({"pd": d.pd()})),
             Err(p) => run.fail(&format!("{key}:mirror"), &format!("panicked: {p}"), json!({"pd": d.pd()})),
+        }
+        // other presentations of the same diagram (edge renumbering x listing order of the crossings,
+        // labels attached to the edges): the reduced theory takes its base point from the first
+        // listed crossing, the value must not depend on it
+        if d.n <= 4 {
+            for (vn, code) in code_variants(d, d.n >= 3).into_iter().skip(1) {
+                run.add("evaluations", 1);
+                let l2 = yui_link::Link::from_pd_code(code.clone());
+                match ss_link(&l2, c, true) {
+                    Ok(s2) if s2 == s0 => {}
+                    Ok(s2) => run.fail(&format!("{key}:presentation:{vn}"), &format!("reduced ss changes from {s0} to {s2} when the same diagram is presented differently"), json!({"pd": d.pd(), "variant": code})),
+                    Err(p) => run.fail(&format!("{key}:presentation:{vn}"), &format!("reduced ss panicked on another presentation of the diagram: {p}"), json!({"pd": d.pd(), "variant": code})),
+                }
+            }
         }
         // isotopy moves
         for (mv, d2) in moves {
